@@ -81,3 +81,15 @@ Proof.
   destruct (negb (is_listk ko) && negb (delete (Comp ko fo xo cho)) && negb (dict_keys_ok (zlen (children s)) cho))%bool; [reflexivity|].
   destruct (filter_nodes _ [] (Comp ko fo xo cho)) as [f1 rm] eqn:E. cbn [fst]. reflexivity.
 Qed.
+
+(* round 7: _require_all_new of ConfigNode / ComposedNode, translated, is the model's require_all_new: every visited node allows new paths
+   or its path is among the exceptions; the walk starts at the given prefix and includes the node itself iff include_self *)
+Lemma srcm_require_all_new n p exc inc : SrcM.require_all_new n p exc inc = require_all_new n p exc inc.
+Proof.
+  assert (E : forall pn : path * node,
+            negb (andb (negb (allow_new (nflags (snd pn)))) (negb (path_in (fst pn) exc))) = (allow_new (nflags (snd pn)) || path_in (fst pn) exc)%bool).
+  { intro pn. destruct (allow_new (nflags (snd pn))), (path_in (fst pn) exc); reflexivity. }
+  unfold SrcM.require_all_new, require_all_new. destruct n as [k f v|k f x ch].
+  - destruct inc; cbn [negb forallb]; [rewrite E, Bool.andb_true_r; reflexivity|reflexivity].
+  - induction (nodes_with_paths p (Comp k f x ch) inc) as [|a l IH]; cbn [forallb]; [reflexivity|]. now rewrite E, IH.
+Qed.
